@@ -82,16 +82,83 @@ func init() {
 		ID: "C01",
 		Jobs: func(tier string) []*Job {
 			if tier == "thorough" {
-				return lookupJobs("C01Lookup", nHandSets+187, 5, 9)
+				return append(lookupJobs("C01Lookup", nHandSets+187, 4, 8), lookupJobs("C01Agree", nHandSets+187, 3, 6)...)
 			}
-			return lookupJobs("C01Lookup", nHandSets+47, 3, 7)
+			return append(lookupJobs("C01Lookup", nHandSets+47, 3, 7), lookupJobs("C01Agree", nHandSets+47, 2, 5)...)
 		},
 		Bounds: func(tier string) string {
 			if tier == "thorough" {
-				return "200 corpus route sets x every Host of 0..5 bytes x every path of 1..9 bytes (full byte alphabet, no empty segment), method GET"
+				return "204 corpus route sets x every Host of 0..4 bytes x every path of 1..8 bytes (full byte alphabet, no empty segment), method GET; entry-point agreement (ServeHTTP, Lookup, Reverse, Iter.Reverse, Txn read/write Lookup+Reverse) on the same sets with Host 0..3, path 1..6"
 			}
-			return "60 corpus route sets x every Host of 0..3 bytes x every path of 1..7 bytes (full byte alphabet, no empty segment), method GET"
+			return "64 corpus route sets x every Host of 0..3 bytes x every path of 1..7 bytes (full byte alphabet, no empty segment), method GET; entry-point agreement (ServeHTTP, Lookup, Reverse, Iter.Reverse, Txn read/write Lookup+Reverse) on the same sets with Host 0..2, path 1..5"
 		},
-		RequiredCovers: []string{"direct match", "no direct match", "matched via hostname", "one backtrack", "two backtracks", "infix catch-all matched"},
+		RequiredCovers: []string{"direct match", "no direct match", "matched via hostname", "one backtrack", "two backtracks", "infix catch-all matched", "lookup matched", "lookup tsr"},
+	}
+}
+
+func init() {
+	props["C08"] = &PropSpec{
+		ID: "C08",
+		Jobs: func(tier string) []*Job {
+			if tier == "thorough" {
+				return lookupJobs("C08Tsr", nHandSets+187, 4, 8)
+			}
+			return lookupJobs("C08Tsr", nHandSets+47, 3, 7)
+		},
+		Bounds: func(tier string) string {
+			if tier == "thorough" {
+				return "C08(a-c): 204 corpus route sets x every Host of 0..4 bytes x every path of 2..8 bytes (full byte alphabet, no empty segment), method GET"
+			}
+			return "C08(a-c): 64 corpus route sets x every Host of 0..3 bytes x every path of 2..7 bytes (full byte alphabet, no empty segment), method GET"
+		},
+		RequiredCovers: []string{"tsr expected", "no route even after slash adjustment", "tsr expected under a matching host"},
+	}
+}
+
+func init() {
+	props["C16"] = &PropSpec{
+		ID: "C16",
+		Jobs: func(tier string) []*Job {
+			if tier == "thorough" {
+				return lookupJobs("C16Alloc", nHandSets+187, 4, 8)
+			}
+			return lookupJobs("C16Alloc", nHandSets+47, 3, 6)
+		},
+		Bounds: func(tier string) string {
+			if tier == "thorough" {
+				return "204 corpus route sets (every route ignoring trailing slashes) x every Host of 0..4 bytes x every path of 1..8 bytes; warm-up = the same request served once"
+			}
+			return "64 corpus route sets (every route ignoring trailing slashes) x every Host of 0..3 bytes x every path of 1..6 bytes; warm-up = the same request served once"
+		},
+		RequiredCovers: []string{"matching request served"},
+		Assumptions: []string{
+			"allocation = an executed SSA instruction that can heap-allocate (new/make/closure/non-pointer MakeInterface/append growth/string conversion or concatenation/sync.Pool.New/fmt); escape analysis of the gc compiler is not modelled: every reported event is re-measured natively with testing.AllocsPerRun before it is reported, and sampled passing paths are measured natively too",
+			"sync.Pool modelled as a LIFO bag (no per-P caches, no GC clearing)",
+		},
+	}
+	props["C09"] = &PropSpec{
+		ID: "C09",
+		Jobs: func(tier string) []*Job {
+			var js []*Job
+			nsets, maxLh, maxLp := nHandSets+47, 5, 3
+			if tier == "thorough" {
+				nsets, maxLh, maxLp = nHandSets+187, 7, 4
+			}
+			for s := 0; s < nsets; s++ {
+				for lh := 0; lh <= maxLh; lh++ {
+					for lp := 1; lp <= maxLp; lp++ {
+						js = append(js, &Job{Harness: "C09Host", Params: map[string]int{"set": s, "lh": lh, "lp": lp}})
+					}
+				}
+			}
+			return js
+		},
+		Bounds: func(tier string) string {
+			if tier == "thorough" {
+				return "204 corpus route sets (hostname and path-only) x every Host header of 0..7 bytes (ports, trailing dot, extra labels/characters, brackets) x every path of 1..4 bytes"
+			}
+			return "64 corpus route sets (hostname and path-only) x every Host header of 0..5 bytes (ports, trailing dot, extra labels/characters, brackets) x every path of 1..3 bytes"
+		},
+		RequiredCovers: []string{"matched via hostname", "host ignored (no hostname routes)", "fallback to path-only", "host with port matched", "host with trailing dot matched"},
 	}
 }
